@@ -7,7 +7,8 @@
    The statements quantify over ALL layout numbers satisfying the layout invariants
    (wf_op) with strides up to 4096 bytes (the copy loops are swept exhaustively up to
    that bound; the statement's struct sizes are 1..64). *)
-From Capy Require Import Common.Util Model.Footprint Spec.FootprintSpec Proofs.FootprintProofs.
+From Capy Require Import Common.Util Common.LTy Common.Layout Spec.CLayout
+  Model.Footprint Spec.FootprintSpec Proofs.FootprintProofs Model.FootprintTy Proofs.FootprintTyProofs.
 Open Scope N_scope.
 
 (* the property at full strength: every operation writes inside its destination *)
@@ -58,3 +59,216 @@ Example C02_example_tag :
   = [(0, 4); (4, 8)] /\
   hi (memset {| v_size := 7; v_stride := 7; v_agg := true; v_bytes := 8 |} true) = 14.
 Proof. split; vm_compute; reflexivity. Qed.
+
+(* ======================================================================================
+   Typed layer.  The layout numbers are no longer abstract: Model/FootprintTy.v obtains
+   them from TYPES (Common/LTy.v) through the model of layout.rs (Common/Layout.v), the
+   way write_all / cast_into_memory / cast_payload_into_tagged_union / create_nil_value /
+   memset / store_struct_fields / store_array_items ask for them.  [top] is the syntax
+   of a typed operation, [top_dest] its destination type, [top_fp tw pw c on_stack] the
+   model's (size of the destination, byte ranges written), [top_op] the same numbers
+   packed as an [op] of the abstract layer.  [wf] / [CLayout.known_class] / [ptr_width] /
+   [layout_info] are those of C17 (unqualified [known_class] is the C02 classifier of
+   over-wide operations).  LIMIT = 4096 is the bound up to which the copy loops were
+   swept exhaustively. *)
+
+(* the typed footprints of the model are the footprints of the typed [op]s *)
+Theorem C02_typed_op_is_model : forall tw pw c s o, top_op pw c s = Ok o ->
+  top_fp tw pw c s = Ok (dest_size o, footprint tw o).
+Proof. exact top_op_fp. Qed.
+Print Assumptions C02_typed_op_is_model.
+
+Theorem C02_typed_model_has_op : forall tw pw c s x, top_fp tw pw c s = Ok x ->
+  exists o, top_op pw c s = Ok o.
+Proof. exact top_fp_op. Qed.
+Print Assumptions C02_typed_model_has_op.
+
+(* the numbers layout.rs computes satisfy the layout invariants the abstract theorems
+   assume, for every destination type whose layout is computed without a panic and
+   whose stride is at most LIMIT *)
+Theorem C02_typed_wf_op : forall pw, ptr_width pw -> forall c s i o,
+  wf (top_dest c) -> CLayout.known_class (top_dest c) = None ->
+  layout_info pw (top_dest c) = Ok i -> i_stride i <= LIMIT ->
+  top_op pw c s = Ok o -> wf_op o /\ dest_size o = i_size i.
+Proof. exact typed_wf_op. Qed.
+Print Assumptions C02_typed_wf_op.
+
+Theorem C02_typed_except_known : forall pw, ptr_width pw -> forall tw c s i o,
+  wf (top_dest c) -> CLayout.known_class (top_dest c) = None ->
+  layout_info pw (top_dest c) = Ok i -> i_stride i <= LIMIT ->
+  top_op pw c s = Ok o -> known_class tw o = None ->
+  within (i_size i) (footprint tw o) = true.
+Proof. exact typed_except_known. Qed.
+Print Assumptions C02_typed_except_known.
+
+Theorem C02_typed_known_are_violations : forall pw, ptr_width pw -> forall tw c s i o k,
+  wf (top_dest c) -> CLayout.known_class (top_dest c) = None ->
+  layout_info pw (top_dest c) = Ok i -> i_stride i <= LIMIT ->
+  top_op pw c s = Ok o -> known_class tw o = Some k -> tw <= 8 ->
+  within (i_size i) (footprint tw o) = false.
+Proof. exact typed_known_are_violations. Qed.
+Print Assumptions C02_typed_known_are_violations.
+
+(* write_all of a t value into a t object stays inside it exactly when t is not an
+   aggregate or its stride equals its size *)
+Theorem C02_typed_copy_within_iff : forall pw, ptr_width pw -> forall tw t s i o,
+  wf t -> CLayout.known_class t = None -> layout_info pw t = Ok i -> i_stride i <= LIMIT ->
+  op_copy pw t s = Ok o ->
+  (within (i_size i) (footprint tw o) = true <-> (is_aggregate t = false \/ i_stride i = i_size i)).
+Proof. exact copy_within_iff. Qed.
+Print Assumptions C02_typed_copy_within_iff.
+
+(* [op_nil] packs the nil store of a nullable pointer as the copy of a pointer value;
+   at pw = 64 that is the abstract layer's OpNil (width ptr_bytes = 8) *)
+Theorem C02_typed_nil_pointer_64 : forall tw sub i o, is_non_zero sub = true ->
+  layout_info 64 (LOptional sub) = Ok i -> op_nil 64 sub = Ok o ->
+  wf_op (OpNil (i_size i) 0 true) /\ dest_size o = i_size i /\
+  footprint tw o = footprint tw (OpNil (i_size i) 0 true).
+Proof. exact nil_pointer_64. Qed.
+Print Assumptions C02_typed_nil_pointer_64.
+
+(* ---- field-wise literal stores (store_struct_fields / store_array_items) ------------
+   [lit] is a literal tree (computed values at the leaves), [lit_footprint pw on_stack l t]
+   the ranges written when it is stored into an object of expected type t, [lit_wt] what
+   the type checker guarantees (member names exist, array literals have the array's
+   length), [lit_leaves_narrow] says no computed leaf is an aggregate with stride > size. *)
+
+(* the slot of every struct member lies inside the struct, slots of different names
+   are disjoint; [offsets()[idx]] never goes out of bounds *)
+Theorem C02_literal_parts_in_place : forall pw, ptr_width pw -> forall t ms i,
+  wf t -> CLayout.known_class t = None -> as_struct t = Some ms -> layout_info pw t = Ok i ->
+  exists offs, i_offsets i = Some offs /\ length offs = length ms /\
+    (forall name idx ty, find_member name ms 0 = Some (idx, ty) ->
+       exists off sz, nth_error offs idx = Some off /\ size_of pw ty = Ok sz /\
+                      off + sz <= i_size i) /\
+    (forall n1 n2 i1 i2 t1 t2 o1 o2 s1 s2, n1 <> n2 ->
+       find_member n1 ms 0 = Some (i1, t1) -> find_member n2 ms 0 = Some (i2, t2) ->
+       nth_error offs i1 = Some o1 -> nth_error offs i2 = Some o2 ->
+       size_of pw t1 = Ok s1 -> size_of pw t2 = Ok s2 ->
+       o1 + s1 <= o2 \/ o2 + s2 <= o1).
+Proof. exact lit_struct_parts_in_place. Qed.
+Print Assumptions C02_literal_parts_in_place.
+
+(* array items: item k at k * stride, inside [0, n * stride) = [0, size), pairwise disjoint *)
+Theorem C02_literal_array_parts_in_place : forall pw, ptr_width pw -> forall t n sub i,
+  wf t -> CLayout.known_class t = None -> as_array t = Some (n, sub) -> layout_info pw t = Ok i ->
+  exists st sz, stride pw sub = Ok st /\ size_of pw sub = Ok sz /\
+    i_size i = n * st /\ sz <= st /\
+    (forall k, k < n -> k * st + sz <= i_size i) /\
+    (forall k1 k2, k1 < k2 -> k1 * st + sz <= k2 * st).
+Proof. exact lit_array_parts_in_place. Qed.
+Print Assumptions C02_literal_array_parts_in_place.
+
+(* a literal all of whose computed leaves are copied narrowly is stored inside its object *)
+Theorem C02_literal_within : forall pw, ptr_width pw -> forall s l t i fp,
+  wf t -> CLayout.known_class t = None -> layout_info pw t = Ok i -> i_size i <= LIMIT ->
+  lit_wt l t = true -> lit_leaves_narrow pw l t = true ->
+  lit_footprint pw s l t = Ok fp -> within (i_size i) fp = true.
+Proof. exact lit_within. Qed.
+Print Assumptions C02_literal_within.
+
+(* what a struct literal writes: its members' footprints at their offsets *)
+Theorem C02_literal_struct_footprint : forall pw s fs t fp,
+  lit_footprint pw s (LitStruct fs) t = Ok fp ->
+  exists ms offs parts, as_struct t = Some ms /\ struct_offsets pw t = Ok (Some offs) /\
+    fp = store_parts parts /\
+    Forall2 (fun f p => exists idx ty, find_member (fst f) ms 0 = Some (idx, ty) /\
+               nth_error offs idx = Some (fst p) /\
+               lit_footprint pw s (snd f) ty = Ok (snd p)) fs parts.
+Proof. exact lit_struct_footprint. Qed.
+Print Assumptions C02_literal_struct_footprint.
+
+(* ... and under the same hypothesis the writes of two differently named members have
+   no byte in common *)
+Theorem C02_literal_fields_disjoint : forall pw, ptr_width pw -> forall s t ms i offs fs,
+  wf t -> CLayout.known_class t = None -> layout_info pw t = Ok i -> i_size i <= LIMIT ->
+  as_struct t = Some ms -> i_offsets i = Some offs ->
+  lit_wt (LitStruct fs) t = true -> lit_leaves_narrow pw (LitStruct fs) t = true ->
+  forall f1 f2, In f1 fs -> In f2 fs -> fst f1 <> fst f2 ->
+  forall i1 t1 o1 fp1 i2 t2 o2 fp2,
+    find_member (fst f1) ms 0 = Some (i1, t1) -> nth_error offs i1 = Some o1 ->
+    lit_footprint pw s (snd f1) t1 = Ok fp1 ->
+    find_member (fst f2) ms 0 = Some (i2, t2) -> nth_error offs i2 = Some o2 ->
+    lit_footprint pw s (snd f2) t2 = Ok fp2 ->
+    forall r1 r2, In r1 (shift o1 fp1) -> In r2 (shift o2 fp2) -> ranges_disjoint r1 r2.
+Proof. exact lit_fields_disjoint. Qed.
+Print Assumptions C02_literal_fields_disjoint.
+
+(* the same for the items of an array literal *)
+Theorem C02_literal_items_disjoint : forall pw, ptr_width pw -> forall s t n sub i st items,
+  wf t -> CLayout.known_class t = None -> layout_info pw t = Ok i -> i_size i <= LIMIT ->
+  as_array t = Some (n, sub) -> stride pw sub = Ok st ->
+  lit_wt (LitArray items) t = true -> lit_leaves_narrow pw (LitArray items) t = true ->
+  forall j1 j2 v1 v2 fp1 fp2, j1 <> j2 ->
+    nth_error items j1 = Some v1 -> nth_error items j2 = Some v2 ->
+    lit_footprint pw s v1 sub = Ok fp1 -> lit_footprint pw s v2 sub = Ok fp2 ->
+    forall r1 r2, In r1 (shift (N.of_nat j1 * st) fp1) -> In r2 (shift (N.of_nat j2 * st) fp2) ->
+      ranges_disjoint r1 r2.
+Proof. exact lit_items_disjoint. Qed.
+Print Assumptions C02_literal_items_disjoint.
+
+(* storing a well-typed literal hits none of the unwrap / expect / slice-index / overflow
+   sites of store_struct_fields / store_array_items (the model returns Ok) *)
+Theorem C02_literal_no_panic : forall pw, ptr_width pw -> forall s l t i,
+  wf t -> CLayout.known_class t = None -> layout_info pw t = Ok i -> i_size i <= LIMIT ->
+  lit_wt l t = true -> exists fp, lit_footprint pw s l t = Ok fp.
+Proof. exact lit_footprint_ok. Qed.
+Print Assumptions C02_literal_no_panic.
+
+(* without the leaf condition the statement is FALSE of the code as it is:
+   struct { p: struct { a: i64, b: i8 }, g: u8 } with a computed p: the copy of p is
+   stride (16) bytes wide, the struct has 10 bytes and g sits at offset 9 *)
+Definition C02_literal_full : Prop := lit_full.
+Theorem C02_literal_full_refuted : ~ C02_literal_full.
+Proof. exact lit_parts_full_refuted. Qed.
+Print Assumptions C02_literal_full_refuted.
+
+(* typed operations on enum { A: struct { i64, i8 }, B: u8 } at pw = 64 (size 10, tag at 9):
+   B -> enum writes payload and one tag byte (8 with the pointer-width tag store);
+   A -> enum copies stride(A) = 16 bytes (known class 3); nil of a ?^enum at pw = 32 is a
+   4-byte store; the literal { g = .., p = { b = .., a = .. } } is stored field by field *)
+Example C02_example_typed :
+  let S := LStruct 7 [(0, LIInt 64); (1, LIInt 8)] in
+  let E := LEnum 5 [LVariant 5 0 6 0 S; LVariant 5 1 8 1 (LUInt 8)] in
+  layout_info 64 E = Ok {| i_size := 10; i_align := 8; i_stride := 16;
+                           i_offsets := None; i_discr := Some 9 |} /\
+  top_op 64 (TVariantToEnum E 1) false
+    = Ok (OpVariantToEnum 10 9 (Some {| v_size := 1; v_stride := 1; v_agg := false; v_bytes := 1 |}) false) /\
+  top_fp 1 64 (TVariantToEnum E 1) true = Ok (10, [(0, 1); (9, 1)]) /\
+  top_fp ptr_bytes 64 (TVariantToEnum E 1) true = Ok (10, [(0, 1); (9, 8)]) /\
+  top_fp 1 64 (TVariantToEnum E 0) false = Ok (10, [(0, 16); (9, 1)]) /\
+  top_fp 1 64 (TVariantToEnum E 2) false = Crash 103 /\
+  top_fp 1 64 (TPayloadToOptional E) false = Ok (11, [(0, 16); (10, 1)]) /\
+  top_fp 1 64 (TNil E) false = Ok (11, [(10, 1)]) /\
+  top_fp 1 32 (TNil (LPointer false E)) false = Ok (4, [(0, 4)]) /\
+  top_fp 1 64 (TPayloadToErrorUnion (LUInt 8) S false) false = Ok (10, [(0, 1); (9, 1)]) /\
+  top_fp 1 64 (TMemset (LOptional (LUInt 32))) true = Ok (5, [(0, 8)]) /\
+  (wf E /\ CLayout.known_class E = None) /\
+  let T := LStruct 3 [(0, S); (1, LUInt 8)] in
+  let l := LitStruct [(1, LitVal); (0, LitStruct [(1, LitVal); (0, LitVal)])] in
+  lit_wt l T = true /\ lit_leaves_narrow 64 l T = true /\
+  lit_footprint 64 true l T = Ok [(9, 1); (8, 1); (0, 8)] /\
+  lit_footprint 64 false wit_lit T = Ok [(0, 16); (9, 1)] /\
+  lit_leaves_narrow 64 wit_lit T = false /\ ~ ranges_disjoint (0, 16) (9, 1).
+Proof.
+  cbv zeta. repeat match goal with |- _ /\ _ => split end; try (vm_compute; reflexivity).
+  exact wit_overlap.
+Qed.
+
+(* ---- fix candidate C02-2 / C02-3 (aggregates copied with `size` bytes, tag one byte) ----
+   For ALL layout numbers satisfying the layout invariants: every operation except the
+   stack memset (class 4) and the ABI cast words (class 5), which never reach a live value,
+   writes inside its destination. *)
+Theorem C02_sizecopy_except_known : forall o,
+  wf_op o -> known_class_sz o = None -> within (dest_size o) (footprint_sz 1 o) = true.
+Proof. exact except_known_sz. Qed.
+Print Assumptions C02_sizecopy_except_known.
+
+Theorem C02_sizecopy_classes_1_2_3_gone :
+  (forall size t s, wf_op (OpCopy size t s) -> within size (footprint_sz 1 (OpCopy size t s)) = true) /\
+  (forall size d p s, wf_op (OpVariantToEnum size d p s) ->
+     within size (footprint_sz 1 (OpVariantToEnum size d p s)) = true) /\
+  (forall size d p s, wf_op (OpPayloadToUnion size d p s) ->
+     within size (footprint_sz 1 (OpPayloadToUnion size d p s)) = true).
+Proof. exact copies_within_sz. Qed.
+Print Assumptions C02_sizecopy_classes_1_2_3_gone.
